@@ -305,6 +305,24 @@ def agr1(P, R, L):
             if st["k"] == "assign" and st["rv"]["k"] == "cast" and any("num_hash_functions" in o.path for o in origins(w, st["rv"]["ops"][0])):
                 stored = True
     R.check("AGR-1", BLOOM_CREATE + "|stores-probe-count", stored, K.where(w), "the filter header byte is the writer's num_hash_functions", "")
+    # ... and it is exactly the number of probes the writer set per key (the reader will test that many)
+    wr = []
+    for bb in range(w.n):
+        if w.is_cleanup(bb):
+            continue
+        for st in w.blocks[bb]["stmts"]:
+            if st["k"] == "assign" and st["rv"]["k"] == "aggregate" and "Range" in (st["rv"].get("adt") or ""):
+                os_ = origins(w, st["rv"]["ops"][1])
+                if any("num_hash_functions" in o.path for o in os_) or any(o.kind == "call" for o in os_):
+                    wr.append(sorted((o.kind, str(o.name), tuple(o.path)) for o in os_))
+    hdr = []
+    for bb in range(w.n):
+        for st in w.blocks[bb]["stmts"]:
+            if st["k"] == "assign" and st["rv"]["k"] == "cast" and any("num_hash_functions" in o.path for o in origins(w, st["rv"]["ops"][0])):
+                hdr.append(sorted((o.kind, str(o.name), tuple(o.path)) for o in origins(w, st["rv"]["ops"][0])))
+    probe_loops = [x for x in wr if any("num_hash_functions" in p_ for (_, _, p_) in x) or any(k == "call" and ("min" in n or "max" in n) for (k, n, _) in x)]
+    R.check("AGR-1", BLOOM_CREATE + "|header-equals-probes-set", bool(probe_loops) and bool(hdr) and all(x in hdr for x in probe_loops), K.where(w),
+            "the probe loop of create_filter runs exactly as many times as the header byte says", "loop bounds %s, header %s" % (probe_loops, hdr))
 
 
 def grd15(P, R, L):
